@@ -412,6 +412,43 @@ def gen_sequence(rng, layout_name):
         seq.append(c)
     return seq
 
+def fixed_sequences(layout_name):
+    """Deterministic (seed-independent) sequences for one shared instance: ONE block with an extent repeated 2-4 times
+    with identical panning parameters while only block gain / object gain / mute / diffuse vary (gain automation on a
+    static sized object), polar and Cartesian, with and without depth / divergence / zones / lock, and with a point
+    block interleaved.  render must be a function of the block alone, so block k must equal the fresh-instance render
+    and obey the power law whatever gains the earlier blocks of the run had."""
+    base = _lat_base(layout_name, None)
+    sized = [
+        ("polar extent", dict(base, position=[30.0, 10.0, 1.0], width=45.0, height=20.0)),
+        ("polar extent+depth", dict(base, position=[-70.0, 0.0, 0.8], width=20.0, height=90.0, depth=0.3)),
+        ("polar extent+div+zones", dict(base, position=[0.0, 30.0, 1.0], width=90.0, height=5.0,
+                                        div=[0.5, 30.0, None], zones=SEQ_ZONES[1])),
+        ("cart extent", dict(base, cartesian=True, position=[0.3, 0.2, 0.1], width=0.4, height=0.3, depth=0.2)),
+        ("cart width only", dict(base, cartesian=True, position=[-1.0, 1.0, 0.0], width=0.25)),
+        ("cart extent+div+zones+lock", dict(base, cartesian=True, position=[0.5, -0.5, 0.5], width=0.1, height=0.5, depth=1.0,
+                                            div=[1.0, None, 0.25], zones=SEQ_ZONES[3], lock=[None])),
+    ]
+    point = {False: dict(base, position=[10.0, 0.0, 1.0]), True: dict(base, cartesian=True, position=[0.1, 0.9, 0.0])}
+    runs = [
+        ("gain 0.5,0.5,1.0", [dict(gain=0.5), dict(gain=0.5), dict(gain=1.0)]),
+        ("object gain 0.7 twice", [dict(ogain=0.7), dict(ogain=0.7)]),
+        ("mute then un-mute", [dict(mute=True), dict(mute=False)]),
+        ("gain 2, diffuse 0.5, gain 0.25 x object gain 3, plain", [dict(gain=2.0), dict(diffuse=0.5), dict(gain=0.25, ogain=3.0), {}]),
+    ]
+    out = []
+    for label, blk in sized:
+        for rlabel, steps in runs:
+            out.append(("%s: %s" % (label, rlabel), [dict(blk, **st) for st in steps]))
+        # a point block between two identical sized blocks (does the first sized block's gain survive it?)
+        out.append(("%s: gain 0.5, point block, gain 0.5" % label,
+                    [dict(blk, gain=0.5), dict(point[blk["cartesian"]], gain=0.3), dict(blk, gain=0.5)]))
+    # two different sized blocks alternating with non-unit gains
+    out.append(("alternating polar/Cartesian sized blocks, gain 0.5",
+                [dict(sized[0][1], gain=0.5), dict(sized[3][1], gain=0.5), dict(sized[0][1], gain=0.5), dict(sized[3][1], gain=0.5)]))
+    return out
+
+
 # --------------------------------------------------------------------------------------
 # admissible real-position layouts (thorough tier)
 
